@@ -294,7 +294,7 @@ PruneLeaf(R, c, fx) ==
 RECURSIVE Prune(_, _, _)
 Prune(R, c, fx) ==
   CASE c.k \in {"cmp", "in", "btw"} -> PruneLeaf(R, c, fx)
-    [] c.k = "not" -> LET x == Prune(R, c.x, fx) IN IF x.rej THEN Rejected ELSE Unroutable
+    [] c.k = "not" -> Unroutable   \* handleComparisonExpr's default branch: columns rewritten, nothing evaluated
     [] c.k \in {"and", "or"} ->
          LET l == Prune(R, c.l, fx)  r == Prune(R, c.r, fx) IN
          IF l.rej \/ r.rej THEN Rejected
